@@ -44,7 +44,7 @@ def main():
                 call = 'py_simulate_model(%s model, %r, via_interface=%s)' % (name, {k: (x if k != 'volume' else vol) for k, x in args.items() if k not in ('Model', 'Interface')}, via_itf)
                 try:
                     res = py_simulate_model(T, **args)
-                except (ValueError, TypeError) as e:
+                except ValueError as e:      # an explicit option error is a ValueError that names the option; a TypeError from inside is a failure
                     if 'option' in str(e).lower() or 'volume' in str(e).lower() or 'delay' in str(e).lower():
                         continue
                     return dict(reproduced=True, call=call, observed='%s: %s' % (type(e).__name__, e), expected='a result or an explicit option error')
